@@ -116,6 +116,8 @@ inductive Op
   | mkView (refs : List Ref)
   /-- `view.coords` of a view holding `atoms`: defined iff all of them are still in the molecule (no change) -/
   | viewRead (atoms : List AtomId)
+  /-- `mol.atomic_charges = array`: every atom is given a new partial charge, by position (refused if the length is wrong) -/
+  | chargeWrite (payloads : List Nat)
   /-- an edit made THROUGH a `Substructure` that concerns only the view's own lists (`view.del_bond(b)`, `view.append_bond(b)`,
       `view.connect(i, j)`, and the calls that are not defined on a view and raise): the molecule is not changed -/
   | viewLocal
@@ -317,6 +319,10 @@ def step (m : Mol) : Op → Mol × Out
   | .appendBondObjs l =>
     if (∀ p ∈ l, p.1 ∉ m.bonds.map (·.id)) ∧ (l.map (·.1)).Nodup then
       (l.foldl (fun acc p => pushBond { acc with next := max acc.next (p.1 + 1) } p.1 p.2.1 p.2.2) m, .ok)
+    else (m, .err)
+  | .chargeWrite ps =>
+    if ps.length = m.atoms.length then
+      ({ m with charges := List.zipWith (fun a p => (a.id, some p)) m.atoms ps }, .ok)
     else (m, .err)
   | .viewLocal => (m, .ok)
   | .mkView refs => (m, if (resolveView m refs).isSome then .ok else .err)
